@@ -269,6 +269,30 @@ def pinned_fns():
     return _PINNED
 
 
+def pinned_owner(P, f, hops=3):
+    """the function of the pinned tree a piece of code belongs to: a closure belongs to its parent; a helper that did not exist on the
+    pinned tree belongs to the function it is (only) called from - the function it was carved out of"""
+    owner = f
+    while owner.kind == "Closure" and owner.parent_key in P.fns:
+        owner = P.fns[owner.parent_key]
+    pinned = pinned_fns()
+    n = 0
+    while pinned and owner.spath not in pinned and n < hops:
+        callers = set()
+        for h in P.fns.values():
+            if h.target == owner.target and any(owner.key in P.callee_keys(h, c) for c in h.calls):
+                o2 = h
+                while o2.kind == "Closure" and o2.parent_key in P.fns:
+                    o2 = P.fns[o2.parent_key]
+                if o2.key != owner.key:
+                    callers.add(o2.key)
+        if len(callers) != 1:
+            break
+        owner = P.fns[next(iter(callers))]
+        n += 1
+    return owner
+
+
 def view(P, f, keep=None, hold=None):
     """f with local helper functions inlined (cached).
     keep = regex of callees the rule wants to keep as calls: everything else that is helper-like is inlined.
